@@ -833,8 +833,13 @@ def _bound_names(node, fn=None):
     return b
 
 
-def inline_lets_deep(node, _mut=None):
+def inline_lets_deep(node, _mut=None, _ro_self=None):
     """copy of `node` with every simple `let` folded into its uses, in every nested block"""
+    if _ro_self is None:
+        f0 = node if isinstance(node, dict) and node.get("k") == "Fn" else (owner_fn(node) if isinstance(node, dict) else None)
+        i0 = (f0 or {}).get("sig", {}).get("inputs", [])
+        # in a `&self` method the object cannot change: reads of self are as good as reads of a local
+        _ro_self = bool(i0) and isinstance(i0[0], dict) and i0[0].get("self", "").replace(" ", "") in ("&self", "self") and False or (bool(i0) and isinstance(i0[0], dict) and i0[0].get("self", "").replace(" ", "") == "&self")
     if _mut is None:
         _mut = {n["name"] for n in walk(node) if n.get("k") == "PIdent" and n.get("mut")} if isinstance(node, (dict, list)) else set()
         fn = node if isinstance(node, dict) and node.get("k") == "Fn" else (owner_fn(node) if isinstance(node, dict) else None)
@@ -842,12 +847,12 @@ def inline_lets_deep(node, _mut=None):
             if isinstance(i, dict) and "pat" in i and (i["pat"].get("mut") or i.get("ty", "").replace(" ", "").startswith("&mut") or "&mut" in i.get("ty", "").replace(" ", "")[:12]):
                 _mut |= _pat_names(i["pat"])
     if isinstance(node, list):
-        return [inline_lets_deep(x, _mut) for x in node]
+        return [inline_lets_deep(x, _mut, _ro_self) for x in node]
     if not isinstance(node, dict):
         return node
-    out = {k: (inline_lets_deep(v, _mut) if isinstance(v, (dict, list)) and k != "tokens" else v) for k, v in node.items()}
+    out = {k: (inline_lets_deep(v, _mut, _ro_self) if isinstance(v, (dict, list)) and k != "tokens" else v) for k, v in node.items()}
     if out.get("k") == "Block" and isinstance(out.get("stmts"), list):
-        out["stmts"] = inline_simple_lets(out["stmts"], multi=True, mut_names=_mut)
+        out["stmts"] = inline_simple_lets(out["stmts"], multi=True, mut_names=_mut, ro_self=_ro_self)
     return out
 
 
@@ -1286,14 +1291,14 @@ def _is_simple_init(e, allow_self=False, mut_roots=None):
             while r is not None and r.get("k") in ("Field", "MethodCall", "Index", "Paren", "Cast", "Try"):
                 r = strip(r.get("recv") if r.get("k") == "MethodCall" else r.get("e"))
             root = ident(r) if r is not None else None
-            if root is None or root in mut_roots or root == "self":
+            if root is None or root in mut_roots or (root == "self" and not allow_self):
                 return False
         if k == "Index" and mut_roots is not None:
             r = strip(n["e"])
             while r is not None and r.get("k") in ("Field", "Index", "Paren"):
                 r = strip(r.get("e"))
             root = ident(r) if r is not None else None
-            if root is None or root in mut_roots or root == "self":
+            if root is None or root in mut_roots or (root == "self" and not allow_self):
                 return False
         if k == "Unary" and n.get("op") == "*":
             return False
@@ -1340,7 +1345,7 @@ def _writes_name(node, names):
     return False
 
 
-def inline_simple_lets(stmts, multi=False, mut_names=None):
+def inline_simple_lets(stmts, multi=False, mut_names=None, ro_self=False):
     """statement list with every single-use simple `let name = init;` folded into its use
     (same block, the use not under a loop or closure)"""
     stmts = list(stmts)
@@ -1355,7 +1360,7 @@ def inline_simple_lets(stmts, multi=False, mut_names=None):
                 continue
             name = p["name"]
             init = s.get("init")
-            if not _is_simple_init(init, mut_roots=mut_names):
+            if not _is_simple_init(init, mut_roots=mut_names, allow_self=ro_self):
                 continue
             if any(x.get("k") == "Path" and ident(x) == name for x in walk(init)):
                 continue  # `let tape = tape.data();` shadows what it reads: leave it
@@ -1560,6 +1565,17 @@ def stmts_in_loops(body, loops, frag):
     return out
 
 
+def no_double_neg(c):
+    """`!!x` / `!(!x)` -> `x` (a branch swapped by negating its condition reads the same)"""
+    while True:
+        if c.startswith("!!"):
+            c = c[2:]
+        elif c.startswith("!(!") and c.endswith(")") and _balanced(c[2:-1]):
+            c = c[3:-1]
+        else:
+            return c
+
+
 def enclosing_conds(root, target):
     """texts of the conditions under which `target` executes (if / else-of / match arm / while), outermost first"""
     found = []
@@ -1583,14 +1599,15 @@ def enclosing_conds(root, target):
         if k == "If":
             c = t(strip(n["cond"]))
             rec(n["cond"], conds)
-            rec(n["then"], conds + [c])
-            rec(n.get("else"), conds + ["!" + c])
+            rec(n["then"], conds + [no_double_neg(c)])
+            rec(n.get("else"), conds + [no_double_neg("!" + c)])
             return
         if k == "Match":
             rec(n["e"], conds)
             for a in n["arms"]:
                 rec(a.get("guard"), conds)
-                rec(a["body"], conds + ["match %s:%s" % (t(n["e"]), t(a["pat"]))])
+                g = [t(strip(a["guard"]))] if a.get("guard") else []
+                rec(a["body"], conds + ["match %s:%s" % (t(n["e"]), t(a["pat"]))] + g)
             return
         if k == "While":
             rec(n["cond"], conds)
@@ -1835,3 +1852,77 @@ def unblock(e):
     while isinstance(e, dict) and e.get("k") == "Block" and len(e.get("stmts", [])) == 1 and e["stmts"][0].get("k") == "ExprStmt" and not e["stmts"][0].get("semi", True):
         e = strip(e["stmts"][0]["e"])
     return e
+
+
+def _flip(op):
+    return {"<": ">=", "<=": ">", ">": "<=", ">=": "<", "==": "!=", "!=": "=="}[op]
+
+
+def int_conjuncts(cond, negate=False):
+    """atomic conjuncts of an *integer* condition with negations pushed inward (De Morgan, flipped
+    comparisons) and comparisons written with `<` / `<=` only; a disjunction that cannot be split is
+    kept as one text.  Only for index / bounds arithmetic: flipping a float comparison is wrong for NaN."""
+    e = strip(cond)
+    k = e.get("k")
+    if k == "Unary" and e.get("op") == "!":
+        return int_conjuncts(e["e"], not negate)
+    if k == "Binary" and e["op"] in ("&&", "||"):
+        is_and = (e["op"] == "&&") != negate
+        if is_and:
+            return int_conjuncts(e["left"], negate) | int_conjuncts(e["right"], negate)
+        return {("!" if negate else "") + unparse(e).replace(" ", "")}
+    if k == "Binary" and e["op"] in ("<", "<=", ">", ">=", "==", "!="):
+        op = _flip(e["op"]) if negate else e["op"]
+        l, r = unparse(strip(e["left"])).replace(" ", ""), unparse(strip(e["right"])).replace(" ", "")
+        if op in (">", ">="):
+            l, r, op = r, l, {">": "<", ">=": "<="}[op]
+        if op in ("==", "!=") and r < l:
+            l, r = r, l
+        return {"(%s%s%s)" % (l, op, r)}
+    return {("!" if negate else "") + unparse(e).replace(" ", "")}
+
+
+def path_conjuncts(root, target):
+    """integer path condition of `target`: conjuncts of the enclosing `if`s (else-branches negated) and of
+    the negations of earlier sibling `if c { .. continue / return / break }` guards, normalised by
+    int_conjuncts"""
+    found = []
+
+    def diverges(blk):
+        st = stmts_of(blk)
+        last = strip(stmt_expr(st[-1]) or {}) if st else {}
+        return last.get("k") in ("Continue", "Return", "Break")
+
+    def rec(n, conj):
+        if found:
+            return
+        if isinstance(n, list):
+            for x in n:
+                rec(x, conj)
+            return
+        if not isinstance(n, dict):
+            return
+        if n is target:
+            found.append(set(conj))
+            return
+        k = n.get("k")
+        if k == "If" and strip(n["cond"]).get("k") != "LetCond":
+            rec(n["cond"], conj)
+            rec(n["then"], conj | int_conjuncts(n["cond"]))
+            rec(n.get("else"), conj | int_conjuncts(n["cond"], True))
+            return
+        if k == "Block":
+            c2 = set(conj)
+            for s in n.get("stmts", []):
+                rec(s, c2)
+                if found:
+                    return
+                e = strip(stmt_expr(s) or {}) if s.get("k") == "ExprStmt" else {}
+                if e.get("k") == "If" and e.get("else") is None and strip(e["cond"]).get("k") != "LetCond" and diverges(e["then"]):
+                    c2 = c2 | int_conjuncts(e["cond"], True)
+            return
+        for v in children(n):
+            rec(v, conj)
+
+    rec(root, set())
+    return found[0] if found else None
